@@ -251,7 +251,9 @@ pub fn generate(seed: u64, tier: &str, index: u64) -> Workspace {
         release: r.chance(1, 4),
         // (every eighth workspace, one that is packaged from a buildpack's directory, gets a
         // relative --package-dir)
-        pkg_dir: match if index % 8 == 6 { let _ = r.below(4); 2 } else { r.below(4) } {
+        pkg_dir: match if index % 8 == 6 { let _ = r.below(4); 2 } else if index % 8 == 4 { let _ = r.below(4); 9 } else { r.below(4) } {
+            // packaged from the workspace root into the workspace root itself
+            9 => PkgDir::Relative(".".into()),
             0 | 1 => PkgDir::Default,
             2 if index % 2 == 0 => PkgDir::Relative((*r.pick(&["out-dir/rel", "../out-dir/up"])).into()),
             2 => PkgDir::Inside("out-dir/pkgs".into()),
@@ -375,7 +377,7 @@ pub fn materialise(w: &Workspace, base: &Path) -> std::io::Result<Layout> {
     )?;
     let pkg = package_dir(w, base);
     // the documented precondition: the output directory is ignored when it lies in the workspace
-    std::fs::write(ws.join(".ignore"), "packaged/\nout-dir/\ntarget/\n")?;
+    std::fs::write(ws.join(".ignore"), format!("packaged/\nout-dir/\ntarget/\n{TARGET}/\n"))?;
     let outside_canary = base.join("canary");
     std::fs::create_dir_all(outside_canary.join("keep"))?;
     std::fs::write(outside_canary.join("keep/file.txt"), "canary")?;
@@ -440,7 +442,7 @@ pub fn run_package(w: &Workspace, l: &Layout, base: &Path, shim_mode: Option<&st
         cmd.env("LD_PRELOAD", pool::shim_path());
         cmd.env(
             "VERIF_SHIM_PLAN",
-            format!("prog=cargo-libcnb;prefix={};{mode};rdseed={};stats={}", l.pkg.display(), w.token | 1, stats.display()),
+            format!("prog=cargo-libcnb;prefix={};{mode};rdseed={};stats={}", owned_dir(l).display(), w.token | 1, stats.display()),
         );
     }
     let (out, _killed) = pool::output_limited(&mut cmd).map_err(|e| format!("spawn cargo-libcnb: {e}"))?;
@@ -639,10 +641,16 @@ pub fn judge_clean(w: &Workspace, l: &Layout, out: &RunOut) -> Vec<String> {
     v
 }
 
+/// The part of the file system the packaging run owns: the package directory — or, when that
+/// is the workspace root or one of its ancestors, only the `<triple>` directory beneath it.
+pub fn owned_dir(l: &Layout) -> PathBuf {
+    if l.ws.starts_with(&l.pkg) { l.pkg.join(TARGET) } else { l.pkg.clone() }
+}
+
 pub fn output_tree(w: &Workspace, l: &Layout) -> Snap {
     // everything beneath the package directory (selected buildpacks and their dependencies)
     let _ = w;
-    Snap::take(&l.pkg).unwrap_or_default()
+    Snap::take(&owned_dir(l)).unwrap_or_default()
 }
 
 /// Stale and foreign content an earlier or interrupted run (or a user) may have left.
@@ -754,9 +762,10 @@ pub fn execute(w: &Workspace, history: &[HistoryStep], base: &Path) -> Result<Hi
             pkg: package_dir(w, base),
             outside_canary: base.join("canary"),
         };
-        if l.pkg.exists() {
-            snap::wipe(&l.pkg).map_err(io)?;
-            let _ = std::fs::remove_dir(&l.pkg);
+        let owned = owned_dir(&l);
+        if owned.exists() {
+            snap::wipe(&owned).map_err(io)?;
+            let _ = std::fs::remove_dir(&owned);
         }
         l
     } else {
